@@ -16,7 +16,50 @@ from harness.props import c14gn
 MODULE = "CddVerif.Properties.C14"
 THEOREMS = ["C14.parseRest_wf", "C14.upsert_nodup", "C14.upsert_keys", "C14.mapVals_keys", "C14.setNameAndType_ok_name",
             "C14.empty_name_witness", "C14.C14_full_false"]
+IFACE = ["shape_by_typing", "class_keys", "function_keys", "argparse_keys", "class_names_distinct", "function_names_distinct", "argparse_names_distinct", "parse_names_distinct",
+         "class_distinct_needs_doc", "function_distinct_needs_doc", "function_distinct_needs_sig", "class_names_no_star", "function_names_no_star", "argparse_names_no_star",
+         "argparse_no_star_false", "parse_names_no_star", "class_names_nonempty", "function_names_nonempty", "argparse_names_nonempty", "class_nonempty_needs_doc",
+         "function_nonempty_needs_doc", "argparse_nonempty_false", "names_full_false", "sigNames_drop", "sig_complete_mem", "sig_complete", "sig_order_exact", "sig_order_undocumented",
+         "sig_order_false", "class_typ_nonempty", "function_typ_nonempty", "argparse_typ_nonempty", "argparse_return_typ_empty", "class_typ_needs_doc"]
+SQLJSON = ["sql_names_distinct", "sql_names_distinct_assign", "sql_names_distinct_class", "sql_names_first_occurrences", "sql_no_column_merged_iff", "sql_repeated_column_dropped",
+           "sql_names_good_iff", "sql_empty_name_witness", "sql_star_name_witness", "sql_names_good_full_false", "sql_names_no_star_false", "sql_class_names", "sql_class_names_good",
+           "sql_class_names_good_identifiers", "sql_typ_nonempty", "sql_typ_nonempty_assign", "sql_typ_nonempty_class", "sql_table_values_nonempty", "sql_type_table_miss",
+           "sql_result_ignores_header", "sql_none_key_witness", "sql_only_documented_keys_false", "json_names_are_property_keys", "json_names_distinct_iff", "json_names_distinct",
+           "json_names_distinct_full_false", "json_names_good_iff", "json_bad_names_witness", "json_names_good_full_false", "json_names_no_star_false", "json_typ_nonempty",
+           "json_table_values_nonempty", "json_typ_present_iff", "json_type_miss_raises", "json_falsy_type_kept", "json_returns_none_iff", "json_return_typ_nonempty_full_false"]
+MODULE_ALL = "CddVerif.Properties.C14All"  # aggregator: C14 (ReST), C14GN (Google / NumPy), C14Iface (class / function / argparse), C14SqlJson (SQLAlchemy, JSON schema)
 ALLOWED_KEYS = {"typ", "doc", "default", "x_typ"}
+# the negation witnesses of C14Iface / C14SqlJson, replayed on the REAL parsers in every run (each is a known finding; a witness that stops failing is reported as stale)
+WITNESSES = [
+    ("argparse-star-name", "argparse", "def set_cli_args(argument_parser):\n    \"\"\"\n    Set CLI arguments\n\n    :param argument_parser: argument parser\n    :type argument_parser: ```ArgumentParser```\n\n"
+     "    :return: argument_parser\n    :rtype: ```ArgumentParser```\n    \"\"\"\n    argument_parser.description = 'd'\n    argument_parser.add_argument('--*a', type=int, help='the a')\n    return argument_parser\n", "name-star"),
+    ("argparse-empty-name", "argparse", "def set_cli_args(argument_parser):\n    \"\"\"\n    Set CLI arguments\n\n    :param argument_parser: argument parser\n    :type argument_parser: ```ArgumentParser```\n\n"
+     "    :return: argument_parser\n    :rtype: ```ArgumentParser```\n    \"\"\"\n    argument_parser.description = 'd'\n    argument_parser.add_argument('--', type=int, help='the a')\n    return argument_parser\n", "name-empty"),
+    ("sqlalchemy-table-empty-name", "table", 't = Table("t", metadata, Column("", Integer), Column("b", String))\n', "name-empty"),
+    ("sqlalchemy-table-star-name", "table", 't = Table("t", metadata, Column("*args", String), Column("b", String))\n', "name-star"),
+    ("json-schema-empty-name", "json_schema", {"$id": "https://x/T.schema.json", "$schema": "https://json-schema.org/draft/2020-12/schema", "description": "T.", "type": "object",
+                                               "properties": {"": {"description": "a", "type": "integer"}, "b": {"description": "b", "type": "string"}}, "required": ["b"]}, "name-empty"),
+    ("json-schema-star-name", "json_schema", {"$id": "https://x/T.schema.json", "$schema": "https://json-schema.org/draft/2020-12/schema", "description": "T.", "type": "object",
+                                              "properties": {"*args": {"description": "a", "type": "integer"}, "b": {"description": "b", "type": "string"}}, "required": ["b"]}, "name-star"),
+]
+
+
+def impl_witness(w):
+    import cdd.argparse_function.parse
+    import cdd.class_.parse  # noqa: F401
+    import cdd.json_schema.parse
+    import cdd.sqlalchemy.parse
+
+    wid, kind, payload, _ = w
+    try:
+        if kind == "json_schema":
+            return {"ir": strip_ir(cdd.json_schema.parse.json_schema(copy.deepcopy(payload)))}
+        node = ast.parse(payload).body[0]
+        if kind == "argparse":
+            return {"ir": strip_ir(cdd.argparse_function.parse.argparse_ast(node))}
+        return {"ir": strip_ir(cdd.sqlalchemy.parse.sqlalchemy_table(node))}
+    except Exception as e:  # noqa
+        return {"raises": core.exc_name(e)}
 
 
 def wf_problems(ir, sig_params=None):
@@ -429,12 +472,17 @@ def impl_emitted(case):
 
 
 def run(chk: core.Check) -> int:
-    chk.lean(c14gn.MODULE, THEOREMS + c14gn.THEOREMS)  # Properties/C14GN.lean imports Properties/C14.lean
+    chk.lean(MODULE_ALL, THEOREMS + c14gn.THEOREMS + ["C14Iface." + t for t in IFACE] + ["C14SqlJson." + t for t in SQLJSON])
     chk.trusted_base += [
         "theorem: the ReST reference parser of lean/CddVerif/Model/Doc.lean (tied to the real parser by C01's correspondence on emitter images and line-level perturbations); "
         "Properties/C14GN.lean: the same for a character-level port of the Google and NumPy scan/parse phases (Model/DocGN.lean), every text, both styles, tied to the real "
         "_scan_phase/_parse_phase/parse_docstring by exact comparison (results, exception classes) with abstention where literal_eval/float()/prose type inference is not modelled; "
-        "the other parsers, and the clauses 'type parses as a Python expression' / 'every signature parameter occurs once', are evaluated on the real parsers' outputs",
+        "the clause 'type parses as a Python expression' is evaluated on the real parsers' outputs only",
+        "Properties/C14Iface.lean: names distinct / no leading star / signature completeness / non-empty present types for EVERY input of the class, function and argparse model parsers "
+        "(Model/IfaceParse.lean, tied to the real parsers stage by stage by the C02 check), with the docstring layer as a parameter whose answers are assumed well-formed "
+        "(that assumption is what C14 / C14GN prove for the docstring models) and CPython's own guarantees (distinct argument names, non-empty annotations) as explicit hypotheses; "
+        "Properties/C14SqlJson.lean: the same for the SQLAlchemy and JSON-schema model parsers (Model/Sql.lean, Model/JsonSchema.lean, tied by the C05 / C06 checks); "
+        "their negation witnesses (names `*a`, `` from add_argument / Column / property keys) are replayed on the real parsers in every run",
     ]
     rng = chk.rng
     n = 400 if chk.quick else 6000
@@ -578,6 +626,16 @@ def run(chk: core.Check) -> int:
                 chk.disagreement("C14 correspondence: parameter names of the ReST parser", {"text": t}, [k for k, _ in r["ir"]["params"]], [k for k, _ in m["ir"]["params"]])
         chk.oblige("correspondence: names/order returned by Doc.parseRest = real parser on %d ReST texts incl. the empty-name witness (%d outside the model)" % (len(rest_texts), n_out),
                    "correspondence", n_dis == 0, "%d disagreements" % n_dis)
+    # (5b) negation witnesses of C14Iface / C14SqlJson on the real parsers
+    stale = 0
+    for w, r in zip(WITNESSES, core.guarded_map(impl_witness, WITNESSES, 10.0)):
+        chk.count(("witness", w[0]), True)
+        probs = [c for c, _ in wf_problems(unstrip(r["ir"]))] if r and "ir" in r else []
+        if w[3] in probs:
+            chk.failure({"parser": "witness", "witness": w[0], "clause": w[3]}, "%s: the real parser returns a parameter name that violates %s" % (w[0], w[3]), {"fn": "witness", "id": w[0]})
+        else:
+            stale += 1
+    chk.oblige("negation witnesses of C14Iface / C14SqlJson fail on the real parsers too (%d witnesses)" % len(WITNESSES), "correspondence", stale == 0, "%d witnesses no longer fail" % stale)
     # (6) Google / NumPy parsers: Model/DocGN.lean against the real scan and parse phases (C14GN theorems)
     c14gn.run_gn(chk, rng, core.DRIVER.exists())
     chk.sample({"docstring": gens[0]["doc"], "style": gens[0]["style"]})
@@ -595,6 +653,10 @@ def replay(path: str) -> int:
     elif d["fn"] == "function":
         r = impl_function(d["g"])
         sig = [tuple(x) for x in d["g"]["sig"]]
+    elif d["fn"] == "witness":
+        w = [x for x in WITNESSES if x[0] == d["id"]][0]
+        r = impl_witness(w)
+        sig = None
     elif d["fn"] == "handwritten":
         r = impl_handwritten((d["kind"], d["payload"]))
         sig = None
